@@ -83,10 +83,14 @@ def lemma_handle_new(ctx):
         opens = [e for e in ev if e.name == "File::open"]
         creates = [e for e in ev if e.name == "File::create"]
         renames = [e for e in ev if e.name == "rename"]
-        mutating = [e for e in ev if e.name in ("File::create", "rename", "remove_file", "allocate_file")]
+        mutating = [e for e in ev if e.name in ("File::create", "File::open_opts", "rename", "remove_file", "allocate_file")]
+        for e in ev:
+            if e.name == "File::open_opts" and nm(e) == "to_path" and not is_errev(e):
+                ctx.fail("C01: nothing of a previous destination's content survives: the destination is opened with create+truncate",
+                         "destination opened with flags %r" % (e.args[1],))
         # C03: the source path is only ever opened read-only, never created/renamed/removed
         for e in ev:
-            if e.name in ("File::create", "remove_file") and nm(e) == "from_path":
+            if e.name in ("File::create", "File::open_opts", "remove_file") and nm(e) == "from_path":
                 ctx.fail("C03: the source path is never opened for writing or removed", str(names))
             if e.name == "rename" and "from_path" in [getattr(a, "name", "?") for a in e.args]:
                 ctx.fail("C03: the source path is never renamed", str(names))
